@@ -96,15 +96,28 @@ func c14run(c *mon.Ctx, proto string, ops []c14op, pool *Pool, rng *rand.Rand, c
 	var out c14runRes
 	pending := len(proto)
 	for i, o := range ops {
-		label := append([]byte(nil), o.label...)
+		// the label lives in a larger backing array (spare capacity filled with sentinels): a callee that appends to it
+		// writes into memory the caller still owns
+		label, labelChk := spareBytes(o.label)
 		switch o.kind {
 		case 0:
 			lt.DomainSep(label)
 			rt.DomainSep(o.label)
 			pending += len(label)
 		case 1:
-			msg := append([]byte(nil), o.msg...)
+			msg, msgChk := spareBytes(o.msg)
+			if len(o.msg) >= len(o.label) && len(o.label) > 0 && i%5 == 0 {
+				// label aliases the beginning of the message's backing array
+				copy(msg, o.label)
+				copy(ops[i].msg, o.label)
+				o.msg = ops[i].msg
+				label = msg[:len(o.label):len(o.label)]
+				labelChk = func() bool { return true }
+			}
 			lt.AppendMessage(msg, label)
+			if !msgChk() {
+				c.Fail("input-modified/AppendMessage", "AppendMessage wrote into the spare capacity of the message slice", nil)
+			}
 			rt.AppendMessage(o.msg, o.label)
 			pending += len(label) + len(msg)
 			if string(msg) != string(o.msg) {
@@ -167,8 +180,8 @@ func c14run(c *mon.Ctx, proto string, ops []c14op, pool *Pool, rng *rand.Rand, c
 			}
 			pending = len(label) + 32
 		}
-		if string(label) != string(o.label) {
-			c.Fail("input-modified/label", "a transcript call changed its label argument", nil)
+		if string(label) != string(o.label) || !labelChk() {
+			c.Fail("input-modified/label", "a transcript call changed its label argument or wrote into its spare capacity", nil)
 		}
 	}
 	return out
